@@ -3515,7 +3515,7 @@ class EntityGroup:
             vmf_file,
             props.int('id', -1),
             editor_block.bool('visgroupshown', True),
-            editor_block.bool('visgroupsautoshown', True),
+            editor_block.bool('visgroupautoshown', True),
             editor_block.vec('color', 255, 255, 255),
         )
 
